@@ -13,14 +13,22 @@ struct NetworkCm02Action g_net;
 struct Variable g_var;
 struct Model g_model;
 struct ActionHeap g_heap;
-struct StateSet g_started, g_otherset;
+struct vf_ilist_Action__state_set_hook_ g_otherset; /* boost::intrusive::list model (capacity VF_ICAP) */
+#define g_started (g_model.started_action_set_)             /* the started set of the model of CPU_A / NET_A */
+#define g_cpu_started (g_cpumodel.__b_Model.started_action_set_) /* the started set of the CpuModel under update */
+#ifndef NACT
+#define NACT 2 /* number of started actions the harness of CpuModel::update_actions_state_full may hold (<= VF_ICAP) */
+#endif
+struct CpuAction g_acts[4]; /* the actions of the started set in that harness */
+struct CpuModel g_cpumodel;
+#define ACT(k) (g_acts[k].__b_Action)
 
 #define CPU_A (g_cpu.__b_Action)
 #define NET_A (g_net.__b_NetworkAction.__b_Action)
 
 /* ghost observers of the assumed callees */
 double g_clock;              /* what EngineImpl::get_clock() returns */
-struct StateSet* g_cur_set;  /* what Action::get_state_set() returns */
+struct vf_ilist_Action__state_set_hook_* g_cur_set;  /* what Action::get_state_set() returns */
 int g_set_state_calls;       /* number of Action::set_state calls */
 int g_set_state_arg;         /* its latest argument */
 struct Action* g_set_state_self;
@@ -32,7 +40,7 @@ struct Action* g_heap_removed_action;
   (FIN(sg_precision_timing) && FIN(sg_precision_workamount) && sg_precision_timing >= 0.0 &&                           \
    sg_precision_workamount >= 0.0 && NO_MAX_DURATION == VFI_NO_MAX_DURATION && VFI_NO_MAX_DURATION == -1.0)
 #define THR_WORK (sg_precision_workamount * sg_precision_timing) /* clamp threshold of remains_ (as in the source) */
-#define IS_ACTION(p) ((p) == &CPU_A || (p) == &NET_A)
+#define IS_ACTION(p) ((p) == &CPU_A || (p) == &NET_A || (p) == &ACT(0) || (p) == &ACT(1) || (p) == &ACT(2) || (p) == &ACT(3))
 #define WF_ACTION(a) ((a).model_ == &g_model && ((a).variable_ == NULL || (a).variable_ == &g_var))
 /* the documented effective rate of an action: value of its LMM variable times its factor, 0 without variable */
 #define RATE(a) ((a).variable_ != NULL ? g_var.value_ * (a).factor_ : 0.0)
@@ -40,19 +48,23 @@ struct Action* g_heap_removed_action;
 /* ---------------- assumed contracts of callees outside C21 (listed in check.json) --------------------------- */
 double get_clock(void) __CPROVER_requires(1) __CPROVER_assigns() __CPROVER_ensures(__CPROVER_return_value == g_clock);
 
-struct StateSet* Action__get_state_set(struct Action* self) __CPROVER_requires(IS_ACTION(self)) __CPROVER_assigns()
+struct vf_ilist_Action__state_set_hook_* Action__get_state_set(struct Action* self) __CPROVER_requires(IS_ACTION(self)) __CPROVER_assigns()
     __CPROVER_ensures(__CPROVER_return_value == g_cur_set);
 
-struct StateSet* Model__get_started_action_set(struct Model* self) __CPROVER_requires(self == &g_model)
-    __CPROVER_assigns() __CPROVER_ensures(__CPROVER_return_value == &g_started);
+/* Model::get_started_action_set is a one-line accessor: extracted and inlined (started_action_set_ == &g_started) */
 
 struct ActionHeap* Model__get_action_heap(struct Model* self) __CPROVER_requires(self == &g_model) __CPROVER_assigns()
     __CPROVER_ensures(__CPROVER_return_value == &g_heap);
 
-void Action__set_state(struct Action* self, int state) __CPROVER_requires(IS_ACTION(self))
-    __CPROVER_assigns(g_set_state_calls, g_set_state_arg, g_set_state_self)
+void Action__set_state(struct Action* self, int state)
+    __CPROVER_requires(IS_ACTION(self) && 0 <= self->vf_state_calls && self->vf_state_calls < 1000000 /* ghost counter */)
+    /* Action::set_state moves the action between the model's state sets; here it only records the call, globally and
+       in two ghost fields of the action (vf_state_calls, vf_state): the started set is NOT modified, i.e. it is assumed
+       that removing the finished action does not disturb an iteration whose iterator was advanced beforehand */
+    __CPROVER_assigns(g_set_state_calls, g_set_state_arg, g_set_state_self, self->vf_state_calls, self->vf_state)
     __CPROVER_ensures(g_set_state_calls == __CPROVER_old(g_set_state_calls) + 1 && g_set_state_arg == state &&
-                      g_set_state_self == self);
+                      g_set_state_self == self && self->vf_state_calls == __CPROVER_old(self->vf_state_calls) + 1 &&
+                      self->vf_state == state);
 
 void ActionHeap__remove(struct ActionHeap* self, struct Action* action)
     __CPROVER_requires(self == &g_heap && IS_ACTION(action)) __CPROVER_assigns(g_heap_removed, g_heap_removed_action)
@@ -116,17 +128,19 @@ double Action__get_rate(struct Action* self)
 
 /* finishing an action: dated now, nothing remains, state handed to set_state */
 void Action__finish(struct Action* self, int state)
-    __CPROVER_requires(IS_ACTION(self) && vf_exc == 0)
-    __CPROVER_assigns(self->finish_time_, self->remains_, g_set_state_calls, g_set_state_arg, g_set_state_self)
+    __CPROVER_requires(IS_ACTION(self) && vf_exc == 0 && 0 <= self->vf_state_calls && self->vf_state_calls < 1000000)
+    __CPROVER_assigns(self->finish_time_, self->remains_, g_set_state_calls, g_set_state_arg, g_set_state_self,
+                      self->vf_state_calls, self->vf_state)
     __CPROVER_ensures(self->remains_ == 0.0)           /*@ finished_action_has_nothing_left */
     __CPROVER_ensures(self->finish_time_ == g_clock)   /*@ finished_action_is_dated_now */
     __CPROVER_ensures(g_set_state_calls == __CPROVER_old(g_set_state_calls) + 1 && g_set_state_arg == state &&
-                      g_set_state_self == self)        /*@ finish_sets_the_state */
+                      g_set_state_self == self && self->vf_state_calls == __CPROVER_old(self->vf_state_calls) + 1 &&
+                      self->vf_state == state)        /*@ finish_sets_the_state */
     __CPROVER_ensures(vf_exc == 0);
 
 /* lazy update of a CPU action at date now */
 #define LAZY_PRE(a)                                                                                                    \
-  (WF_ACTION(a) && PREC_OK && vf_exc == 0 && FIN(now) && now == g_clock && FIN((a).last_update_) &&                    \
+  (WF_ACTION(a) && (a).vf_state_calls == 0 && PREC_OK && vf_exc == 0 && FIN(now) && now == g_clock && FIN((a).last_update_) &&                    \
    (a).last_update_ <= now && FIN((a).last_value_) && (a).last_value_ >= 0.0 && FIN((a).remains_) &&                   \
    (a).remains_ >= 0.0 && FIN(now - (a).last_update_) &&                                                            \
    ((a).variable_ == NULL || (FIN(g_var.value_) && FIN((a).factor_))))
@@ -166,7 +180,8 @@ void NetworkCm02Action__update_remains_lazy(struct NetworkCm02Action* self, doub
                        (NET_A.max_duration_ == -1.0 || NET_A.max_duration_ >= 0.0) && g_set_state_calls == 0 &&
                        g_heap_removed == 0)
     __CPROVER_assigns(NET_A.remains_, NET_A.max_duration_, NET_A.last_update_, NET_A.last_value_, NET_A.finish_time_,
-                      g_set_state_calls, g_set_state_arg, g_set_state_self, g_heap_removed, g_heap_removed_action)
+                      g_set_state_calls, g_set_state_arg, g_set_state_self, g_heap_removed, g_heap_removed_action,
+                      NET_A.vf_state_calls, NET_A.vf_state)
     __CPROVER_ensures(vf_exc == 0)
     __CPROVER_ensures(NET_A.suspended_ == SuspendStates__RUNNING ||
                       (NET_A.remains_ == __CPROVER_old(NET_A.remains_) &&
@@ -204,6 +219,65 @@ void NetworkCm02Action__update_remains_lazy(struct NetworkCm02Action* self, doub
     /*@ net_last_update_is_now */
     __CPROVER_ensures(NET_A.suspended_ != SuspendStates__RUNNING || NET_A.last_value_ == RATE(NET_A))
     /*@ net_last_value_is_current_rate */;
+
+
+/* ---------------- the full (non-lazy) update of a CPU model: every started action advances by rate * delta ------ */
+#define L_N (g_cpu_started.n)
+#define IN_SET(k) ((k) < L_N)
+#define ACT_PRE(k)                                                                                                     \
+  (g_cpu_started.d[k] == &ACT(k) &&                                                                                        \
+   (!IN_SET(k) || (ACT(k).model_ == &g_model && ACT(k).variable_ == &g_var && FIN(ACT(k).remains_) &&                  \
+                   ACT(k).remains_ >= 0.0 && FIN(ACT(k).max_duration_) &&                                              \
+                   (ACT(k).max_duration_ == -1.0 || ACT(k).max_duration_ >= 0.0) && FIN(ACT(k).factor_) &&             \
+                   ACT(k).factor_ >= 0.0 && FIN(g_var.value_ * ACT(k).factor_) && ACT(k).vf_state_calls == 0)))
+#define ACT_DONE(k)                                                                                                    \
+  ((ACT(k).remains_ <= 0.0 && g_var.sharing_penalty_ > 0.0) || (ACT(k).max_duration_ != -1.0 && ACT(k).max_duration_ <= 0.0))
+#define OLD_REM(k) __CPROVER_old(ACT(k).remains_)
+#define OLD_MAXD(k) __CPROVER_old(ACT(k).max_duration_)
+#define USED(k) ((g_var.value_ * ACT(k).factor_) * delta)
+/* what the property demands of one started action k */
+#define ACT_POST_MONO(k) (!IN_SET(k) || (ACT(k).remains_ <= OLD_REM(k) && ACT(k).remains_ >= 0.0))
+#define ACT_POST_EXACT(k) (!IN_SET(k) || ACT(k).remains_ == 0.0 || ACT(k).remains_ == OLD_REM(k) - USED(k))
+#define ACT_POST_ABOVE(k)                                                                                              \
+  (!IN_SET(k) || ACT(k).vf_state_calls == 1 || !(OLD_REM(k) - USED(k) >= THR_WORK) || ACT(k).remains_ == OLD_REM(k) - USED(k))
+#define ACT_POST_FIN(k)                                                                                                \
+  (!IN_SET(k) || (ACT(k).vf_state_calls == (ACT_DONE(k) ? 1 : 0) &&                                                    \
+                  (ACT(k).vf_state_calls == 0 || (ACT(k).vf_state == State__FINISHED && ACT(k).remains_ == 0.0))))
+#define ACT_POST_MAXD(k)                                                                                               \
+  (!IN_SET(k) || (OLD_MAXD(k) == -1.0 ? ACT(k).max_duration_ == -1.0                                                   \
+                                      : (ACT(k).max_duration_ >= 0.0 && ACT(k).max_duration_ <= OLD_MAXD(k))))
+#define ACT_POST_MAXD_EXACT(k)                                                                                         \
+  (!IN_SET(k) || OLD_MAXD(k) == -1.0 ||                                                                                \
+   ACT(k).max_duration_ == (OLD_MAXD(k) - delta < sg_precision_timing ? 0.0 : OLD_MAXD(k) - delta))
+/* a maximum duration that is over (delta >= what was left) reaches zero */
+#define ACT_POST_MAXD_ELAPSED(k) (!IN_SET(k) || OLD_MAXD(k) == -1.0 || !(delta >= OLD_MAXD(k)) || ACT(k).max_duration_ == 0.0)
+#define ACT_UNTOUCHED(k)                                                                                               \
+  (IN_SET(k) || (__CPROVER_equal(ACT(k).remains_, OLD_REM(k)) && ACT(k).vf_state_calls == __CPROVER_old(ACT(k).vf_state_calls)))
+#if NACT == 2
+#define ALLA(P) (P(0) && P(1))
+#elif NACT == 4
+#define ALLA(P) (P(0) && P(1) && P(2) && P(3))
+#else
+#error "NACT must be 2 or 4"
+#endif
+void CpuModel__update_actions_state_full(struct CpuModel* self, double now, double delta)
+    __CPROVER_requires(self == &g_cpumodel && PREC_OK && vf_exc == 0 && FIN(delta) && delta >= 0.0 && L_N <= NACT &&
+                       ACT_PRE(0) && ACT_PRE(1) && ACT_PRE(2) && ACT_PRE(3) && FIN(g_var.value_) && g_var.value_ >= 0.0)
+    __CPROVER_assigns(__CPROVER_object_whole(g_acts), g_set_state_calls, g_set_state_arg, g_set_state_self)
+    __CPROVER_ensures(vf_exc == 0)
+    __CPROVER_ensures(ALLA(ACT_POST_MONO))  /*@ full_update_remains_never_increases_never_negative */
+#ifdef FULL_EXACT /* UNDECIDED (SAT and cvc5 time out, 5 min per clause, also with get_rate inlined): NOT claimed for the
+                     loop; the same statements are proved for one action by Action::update_remains above */
+    __CPROVER_ensures(ALLA(ACT_POST_EXACT)) /*@ full_update_consumes_rate_times_delta_or_zero */
+    __CPROVER_ensures(ALLA(ACT_POST_ABOVE)) /*@ full_update_above_precision_consumes_exactly */
+#endif
+    __CPROVER_ensures(ALLA(ACT_POST_FIN))   /*@ full_update_finishes_iff_nothing_remains_or_time_over */
+    __CPROVER_ensures(ALLA(ACT_POST_MAXD))  /*@ full_update_max_duration_decreases */
+    __CPROVER_ensures(ALLA(ACT_POST_MAXD_ELAPSED)) /*@ full_update_elapsed_max_duration_reaches_zero */
+#ifdef FULL_EXACT /* UNDECIDED like the two clauses above: not claimed for the loop */
+    __CPROVER_ensures(ALLA(ACT_POST_MAXD_EXACT)) /*@ full_update_max_duration_consumes_delta */
+#endif
+    __CPROVER_ensures(ALLA(ACT_UNTOUCHED))  /*@ full_update_leaves_other_actions_alone */;
 
 #include "gen.c"
 
@@ -298,6 +372,22 @@ void harness(void)
 {
   setup();
   NetworkCm02Action__update_remains_lazy(&g_net, nondet_double());
+  VF_CANARY_POINT;
+}
+#endif
+
+#ifdef H_full_update
+unsigned long nondet_ulong(void);
+void harness(void)
+{
+  setup();
+  for (int k = 0; k < 4; k++) {
+    havoc_action(&ACT(k));
+    ACT(k).vf_state_calls = 0;
+    g_cpu_started.d[k]    = &ACT(k);
+  }
+  g_cpu_started.n = nondet_ulong();
+  CpuModel__update_actions_state_full(&g_cpumodel, nondet_double(), nondet_double());
   VF_CANARY_POINT;
 }
 #endif
